@@ -41,13 +41,16 @@ LEVEL_NOTE = ("Trusted: Lean kernel (standard axioms); the link between the clas
               "svd='randomized' (or 'auto' at n >= 14, rank 1), which draws a random sketch matrix by design.")
 LEAN_TARGETS = ["QclibModel.Props.C15"]
 THEOREMS = ["Qclib.C15_placement", "Qclib.C15_placement_inj", "Qclib.C15_spectator", "Qclib.C15_place",
-            "Qclib.C15_inverse", "Qclib.C15_width"]
+            "Qclib.C15_inverse", "Qclib.C15_width", "Qclib.C15_width_src"]
 TRUSTED = [
     "qiskit QuantumCircuit.append/compose/inverse, Statevector/Operator/DensityMatrix (oracle side)",
     "the definitions of the real classes are not gate lists over G in general (UnitaryGate, UCGate, DiagonalGate, "
     "Isometry blocks): placement and inverse of the real entry points are tested differentially, not derived from the theorems",
     "width table: hand model of each constructor's width expression and of the registers _define allocates, tied on the "
-    "sweep only",
+    "sweep only — except the six constructors that compute their width themselves (Cvoqram, FnPoints, Pivot, McxVchainDirty, "
+    "LinearMcx, MultiTargetMCSU2): their width expression is re-translated from the source on every run (tools/py2lean.py -> "
+    "Gen/Widths.lean) and proved equal to declaredWidth (C15_width_src); second tie: generated definitions run by the driver "
+    "vs num_qubits of the real constructors over a small box",
 ]
 ASSUMPTIONS = ["exact arithmetic in the theorems; implementation compared to 1e-7 (states/operators), 1e-12 (inverse parameters)",
                "float idioms in width expressions (log2 of a power of two, ceil(log2 m)) are modelled by Nat.log2 / clog2"]
@@ -2084,6 +2087,7 @@ def run(ctx):
     ctx.notes.append("domain restrictions observed on the real code (construction fails outside): SVDInitialize n>=2; "
                      "FnPointsInitialize n>=2; PivotInitialize m>=2 (m>=3 with aux=True whenever a pivot step is needed); "
                      "Ldmcsu/Qdmcu/LdMcSpecialUnitary k>=1; MCU needs k >= base controls (5 for X/Z at error 0.3)")
+    gen_width_tie(ctx)
     for case in width_cases(ctx):
         run_case(ctx, case)
     n_alpha = 40 if ctx.quick else 200
@@ -2128,3 +2132,91 @@ def replay(ctx, payload):
         boundary_probes(ctx)
         return
     run_case(ctx, case)
+
+
+# ------------------------------------------------------------------------------------------------
+# source tie of the declared-width expressions (DESIGN §4.1): translated from the constructors on every run
+# ------------------------------------------------------------------------------------------------
+
+GEN_FILE_REL = "lean/QclibModel/Gen/Widths.lean"
+GEN_SOURCES = ["qclib/state_preparation/cvoqram.py", "qclib/state_preparation/fnpoints.py", "qclib/state_preparation/pivot.py",
+               "qclib/gates/mcx.py", "qclib/gates/multitargetmcsu2.py"]
+
+
+def generate(ctx):
+    """Re-translate, from the current source, the expression each of six constructors hands to `super().__init__` as the
+    width (with every statement of `__init__` that feeds it) into Gen/Widths.lean, and re-check C15_width_src.  A translator
+    refusal raises (broken obligation `translator`)."""
+    import os
+    import framework
+    import py2lean
+    import srctie
+    py2lean.ensure_prelude(framework.LEAN)
+    ns = "Qclib.Gen.Widths"
+    sup = ("super().__init__", 1, "num_qubits")
+    cvo, fnp, piv, mcx, mts = GEN_SOURCES
+
+    def tb(rel, *a, **k):
+        return py2lean.translate_block(os.path.join(framework.REPO, rel), *a, relpath=rel, result_call=sup, **k)
+    none_view = {"opt_params is None": ("opt_none", "Bool")}
+    blocks = [
+        tb(cvo, "CvoqramInitialize.__init__", "cvoqram_width", ns, params=[("self.num_qubits", "Int")],
+           views=dict(none_view, **{"opt_params.get('with_aux')": ("opt_with_aux", "OptBool")})),
+        tb(fnp, "FnPointsInitialize.__init__", "fnpoints_width", ns, params=[("self.num_qubits", "Int")]),
+        tb(piv, "PivotInitialize.__init__", "pivot_width", ns, params=[("self.num_qubits", "Int")],
+           views=dict({"len(params)": "len_params"}, **none_view, **{"opt_params.get('aux')": ("opt_aux", "OptBool")})),
+        tb(mcx, "McxVchainDirty.__init__", "mcx_vchain_dirty_width", ns,
+           params=[("num_controls", "Int"), ("num_target_qubit", "Int")]),
+        tb(mcx, "LinearMcx.__init__", "linear_mcx_width", ns, params=[("num_controls", "Int")]),
+        tb(mts, "MultiTargetMCSU2.__init__", "multi_target_mcsu2_width", ns,
+           params=[("num_controls", "Int"), ("num_target", "Int")]),
+    ]
+    text = py2lean.write_module(os.path.join(framework.VERIF, GEN_FILE_REL), blocks,
+                                [s + " :: width argument of super().__init__ in __init__" for s in GEN_SOURCES])
+    srctie.verify(ctx, "QclibModel.Props.C15", ["Qclib.C15_width_src"])
+    return {"file": GEN_FILE_REL, "bytes": len(text),
+            "translated": ["CvoqramInitialize", "FnPointsInitialize", "PivotInitialize", "McxVchainDirty", "LinearMcx",
+                           "MultiTargetMCSU2"]}
+
+
+def gen_width_tie(ctx):
+    """Second tie of the translation: the generated width expressions (run by the driver) against `num_qubits` of the REAL
+    constructors, exhaustively over a small box of (n, m, option form) / (k, t)."""
+    from qclib.state_preparation import CvoqramInitialize, FnPointsInitialize, PivotInitialize
+    from qclib.gates.mcx import McxVchainDirty, LinearMcx
+    from qclib.gates.multitargetmcsu2 import MultiTargetMCSU2
+
+    def same(op, impl, model):
+        return None if impl == model else f"impl={impl!r} generated={model!r}"
+
+    def emit(op, build):
+        try:
+            lines = [f"decl {int(build().num_qubits)}"]
+        except Exception as e:
+            lines = [f"raised {type(e).__name__}"]
+        base = {"op": "gen_width", "n": 0, "m": 0, "k": 0, "t": 0, "opt_none": True, "has_opt": False, "opt": False}
+        base.update(op)
+        ctx.tie(base, lines, label="translated width " + " ".join(f"{a}={b}" for a, b in op.items()), compare=same)
+        ctx.count("gen-width:" + op["cls"])
+
+    def opt_forms(key):
+        return [(None, True, False, False), ({}, False, False, False), ({key: None}, False, False, False),
+                ({key: True}, False, True, True), ({key: False}, False, True, False)]
+
+    for n in range(1, 6):
+        for m in sorted({1, 2, 3, 5, 2 ** n}):
+            if m > 2 ** n:
+                continue
+            keys = [format(i, f"0{n}b") for i in range(m)]
+            amp = {k: 1.0 / math.sqrt(m) for k in keys}
+            for key, cls, C in (("with_aux", "cvoqram", CvoqramInitialize), ("aux", "pivot", PivotInitialize)):
+                for opt, onone, has, val in opt_forms(key):
+                    emit({"cls": cls, "n": n, "m": m, "opt_none": onone, "has_opt": has, "opt": val},
+                         lambda C=C, opt=opt: C(dict(amp), opt_params=copy.deepcopy(opt)))
+            emit({"cls": "fnPoints", "n": n, "m": m}, lambda: FnPointsInitialize({k: i for i, k in enumerate(keys)}))
+    eye = np.eye(2)
+    for k in range(1, 9):
+        emit({"cls": "linearMcx", "k": k}, lambda: LinearMcx(k))
+        for t in range(1, 4):
+            emit({"cls": "mcxVchainDirty", "k": k, "t": t}, lambda: McxVchainDirty(k, num_target_qubit=t))
+            emit({"cls": "multiTargetMCSU2", "k": k, "t": t}, lambda: MultiTargetMCSU2([eye] * t, k, t))
